@@ -38,7 +38,7 @@ def gen(rng):
     elif r < 0.85:
         rule = c11_pct(ck["name"])
     else:
-        rule = rng.choice(["other", "ID", ck["name"] + " "])
+        rule = rng.choice(["other", "id", "ID", ck["name"] + " "])
     cfg["crypto"] = {"alg": alg, "name": rule, "percent_encode": rng.random() < 0.85}
     reqs = []
     for i in range(rng.choice([1, 1, 2, 3, 4])):
@@ -48,7 +48,7 @@ def gen(rng):
             ops = [o for o in ops if not o[0].startswith("c.")]
         if not ops and rng.random() < 0.7:
             ops = [["s.insert", "a", 1]]
-        src = "jar" if i == 0 or rng.random() < 0.9 else rng.choice(["none", rng.randrange(i)])
+        src = "jar" if i == 0 or rng.random() < 0.88 else rng.choice(["none", "tampered", "tampered", rng.randrange(i)])
         reqs.append({"src": src, "expire": rng.random() < 0.03, "rem": c11.gen_rem(rng, cfg), "ops": ops})
     return {"cfg": cfg, "requests": reqs}
 
@@ -148,7 +148,7 @@ def mutate(rng, c):
 
 
 RULE = ("crypto algorithm {none 15%, sign 30%, encrypt 55%} x rule registered for {the cookie name 70%, its percent-encoded form 15%, "
-        "another name 15%} x percent-encoding {on 85%, off} x cookie names {id, sid, __Host-s, 'my id', 's:id', 'sess(1)', 'a%b'} x "
+        "another name (other, id, ID, name+space) 15%} x percent-encoding {on 85%, off} x cookie names {id, sid, __Host-s, 'my id', 's:id', 'sess(1)', 'a%b'} x "
         "domain/path/Secure/HttpOnly/SameSite/kind all combinations x 1-4 requests of 0-5 random session operations (half of the "
         "histories server-side only). non-trivial = at least one request ends in a cookie or in a crypto refusal; distinct by "
         "(cookie config, crypto config, operation names)")
